@@ -218,6 +218,17 @@ VARIANTS = [
          old="    fn set_resample_ratio(&mut self, _new_ratio: f64, _ramp: bool) -> ResampleResult<()> {\n        Err(ResampleError::SyncNotAdjustable)",
          new="    fn set_resample_ratio(&mut self, _new_ratio: f64, _ramp: bool) -> ResampleResult<()> {\n        let _note = String::from(\"not adjustable\");\n        Err(ResampleError::SyncNotAdjustable)"),
     # ---------------- regression: re-introducing a repaired defect must be reported again (fixed entries suppress nothing)
+    dict(property="C03", name="revert-fix-zero-fft-block", revert_commit="3640999", expect="fft_size_in-positive"),
+    dict(property="C03", name="fft-out-unguarded-subtraction", file=SYN, expect="R-C03-arith/FftFixedOut/sub",
+         old="""        let frames_needed_out = if self.chunk_size_out > self.saved_frames {
+            self.chunk_size_out - self.saved_frames
+        } else {
+            0
+        };""", new="""        let frames_needed_out = self.chunk_size_out - self.saved_frames.min(self.chunk_size_out + 1);"""),
+    dict(property="C03", name="fft-in-divide-by-subchunks-field", file=SYN, expect="R-C03-arith",
+         old="        let max_subchunks_to_process = max_available_frames / self.fft_size_in;", new="        let max_subchunks_to_process = max_available_frames / (self.fft_size_in - self.fft_size_in % 2);"),
+    dict(property="C03", name="make-sincs-range-inclusive", file=SINCRS, expect="R-C03-arith/sinc::make_sincs/sub",
+         old="for n in 0..factor {", new="for n in 0..=factor {"),
     dict(property="C12", name="revert-fix-ratio-bounds", revert_commit="30d33be", expect="bare-argument"),
     dict(property="C13", name="revert-fix-mask-length", revert_commit="00a5a33", expect="R-C13-mask"),
     dict(property="C10", name="revert-fix-reset-needed", revert_commit="b901fb3", expect="SincFixedOut.needed_input_size"),
@@ -399,6 +410,16 @@ VARIANTS = [
 
 # Behaviour-preserving edits: every listed check must stay silent (exit 0) on them.  `regex` edits are applied with re.sub.
 BENIGN = [
+    dict(name="fft-out-saturating-sub", file=SYN, properties=["C03", "C04", "C05", "C07", "C10", "C01"],
+         edits=[("""        let frames_needed_out = if self.chunk_size_out > self.saved_frames {
+            self.chunk_size_out - self.saved_frames
+        } else {
+            0
+        };""", """        let frames_needed_out = self.chunk_size_out.saturating_sub(self.saved_frames);""")]),
+    dict(name="fft-in-guard-flipped", file=SYN, properties=["C03", "C04", "C05", "C07"],
+         edits=[("""        if processed_frames >= self.chunk_size_out {
+            self.saved_frames = processed_frames - self.chunk_size_out;""", """        if self.chunk_size_out <= processed_frames {
+            self.saved_frames = processed_frames - self.chunk_size_out;""")]),
     dict(name="rename-loop-locals-fast", file=FAST, properties=["C03", "C04", "C05", "C06", "C07", "C08", "C11", "C14"],
          regex=[(r"\bidx\b", "pos"), (r"\bt_ratio\b", "step"), (r"\bt_ratio_end\b", "step_end"), (r"\bt_ratio_increment\b", "step_inc"), (r"\bend_idx\b", "limit"),
                 (r"\bapproximate_nbr_frames\b", "est_frames"), (r"\bneeded_len\b", "out_len"), (r"\bidx_floor\b", "pos_floor"), (r"\bstart_idx\b", "first"), (r"\bfrac_offset\b", "xf")]),
